@@ -801,7 +801,7 @@ def run_cases(name, terms, per_file=120, timeout=1200):
     files = []
     for k in range(0, max(1, (len(terms) + per_file - 1) // per_file)):
         chunk = terms[k * per_file:(k + 1) * per_file]
-        fn = os.path.join(cdir, f"{name}_{k}.v")
+        fn = os.path.join(cdir, f"{name}_p{os.getpid()}_{k}.v")
         with open(fn, "w") as f:
             f.write(PRE + "\nDefinition cases : list c07case := [\n" + ";\n".join(chunk) + "\n].\n")
             f.write("Eval vm_compute in check_cases cases.\nEval vm_compute in check_structural cases.\nEval vm_compute in List.length cases.\n")
